@@ -14,6 +14,7 @@ var profiles = map[string]Profile{
 	"oracle":     {Name: "oracle", Blocks: 30, MaxTx: 2, Oracle: true, Wrongness: 35, Jail: true, Probono: true, OracleFee: "0.5"},
 	"faults":     {Name: "faults", Blocks: 24, MaxTx: 4, Oracle: true, Wrongness: 5, Faults: true, Mint: true, PeriodMax: 4},
 	"adversarial": {Name: "adversarial", Blocks: 20, MaxTx: 4, Oracle: true, Wrongness: 20, Adversarial: true, BigPeriods: true, Internal: true, Mint: true},
+	"imported":   {Name: "imported", Blocks: 16, MaxTx: 3, Oracle: true, Wrongness: 10, Faults: true, Imported: true, PeriodMax: 8, VotePeriods: []uint64{1, 1, 2}},
 	"periods":    {Name: "periods", Blocks: 20, MaxTx: 4, Oracle: true, Wrongness: 5, BigPeriods: true},
 }
 
